@@ -4,7 +4,7 @@
 From Coq Require Import List NArith Bool Lia.
 From Coq.Strings Require Import Byte.
 From GM Require Import Codec.Packet Topic.MatchSpec Broker.Backend Broker.BackendSpec
-  Broker.BackendProofs Broker.BackendProofsPublish Broker.BackendProofsSteps Broker.BackendProofsReplay.
+  Broker.BackendProofs Broker.BackendProofsPublish Broker.BackendProofsSteps Broker.BackendProofsReplay Broker.BackendOwn.
 Import ListNotations.
 Open Scope N_scope.
 
@@ -19,11 +19,13 @@ Fixpoint trace (st : state) (ops : list op) : list (state * op * result * state)
 Definition holds_along (P : state -> op -> result -> state -> bool) (cap : N) (ops : list op) : Prop :=
   Forall (fun x => let '(st, o, r, st') := x in r <> RBadOracle -> P st o r st' = true) (trace (init cap) ops).
 
-Lemma trace_wf ops : forall st, wf st -> Forall (fun x => wf (fst (fst (fst x)))) (trace st ops).
+Lemma trace_wf ops : forall st, wf st -> Own st ->
+  Forall (fun x => wf (fst (fst (fst x))) /\ Own (fst (fst (fst x)))) (trace st ops).
 Proof.
-  induction ops as [|o ops IH]; intros st W; cbn [trace]; [constructor|].
-  pose proof (wf_step st o W) as W1. destruct (step st o) as [r st1]; cbn [snd] in W1.
-  constructor; [exact W|apply IH; exact W1].
+  induction ops as [|o ops IH]; intros st W O; cbn [trace]; [constructor|].
+  pose proof (wf_step st o W) as W1. pose proof (own_step st o O) as O1.
+  destruct (step st o) as [r st1]; cbn [snd] in W1, O1.
+  constructor; [split; assumption|apply IH; assumption].
 Qed.
 
 Lemma trace_is_step ops : forall st, Forall (fun x => let '(s, o, r, s') := x in step s o = (r, s')) (trace st ops).
@@ -33,64 +35,71 @@ Proof.
 Qed.
 
 Lemma holds_along_intro (P : state -> op -> result -> state -> bool) :
-  (forall st o, wf st -> let (r, st') := step st o in r <> RBadOracle -> P st o r st' = true) ->
+  (forall st o, wf st -> Own st -> let (r, st') := step st o in r <> RBadOracle -> P st o r st' = true) ->
   forall cap ops, holds_along P cap ops.
 Proof.
   intros H cap ops. unfold holds_along.
-  pose proof (trace_wf ops (init cap) (wf_init cap)) as F1.
+  pose proof (trace_wf ops (init cap) (wf_init cap) (own_init cap)) as F1.
   pose proof (trace_is_step ops (init cap)) as F2.
   rewrite Forall_forall in *. intros [[[s o] r] s'] Hin.
-  specialize (F1 _ Hin). specialize (F2 _ Hin). cbn [fst] in F1. cbn beta iota in F2.
-  specialize (H s o F1). rewrite F2 in H. exact H.
+  specialize (F1 _ Hin). specialize (F2 _ Hin). cbn [fst] in F1. cbn beta iota in F2. destruct F1 as [F1 F1'].
+  specialize (H s o F1 F1'). rewrite F2 in H. exact H.
 Qed.
 
 Theorem targets_along cap ops : holds_along targets_ok cap ops.
 Proof.
-  apply holds_along_intro. intros st o W. destruct o; try (destruct (step st _); reflexivity).
-  cbn [step]. pose proof (publish_targets_ok st c m got W) as X. destruct (publish st c m got). intros _; exact X.
+  apply holds_along_intro. intros st o W O. destruct o; try (destruct (step st _); reflexivity).
+  cbn [step]. pose proof (publish_targets_ok st c m got W (own_ownok st O)) as X. destruct (publish st c m got). intros _; exact X.
 Qed.
 
 Theorem live_copy_along cap ops : holds_along live_copy_ok cap ops.
 Proof.
-  apply holds_along_intro. intros st o W. destruct o; try (destruct (step st _); reflexivity).
+  apply holds_along_intro. intros st o W O. destruct o; try (destruct (step st _); reflexivity).
   cbn [step]. pose proof (publish_live_copy_ok st c m got W) as X. destruct (publish st c m got). intros _; exact X.
 Qed.
 
 Theorem qos_along cap ops : holds_along qos_ok cap ops.
 Proof.
-  apply holds_along_intro. intros st o W. destruct o; try (destruct (step st _); reflexivity).
+  apply holds_along_intro. intros st o W O. destruct o; try (destruct (step st _); reflexivity).
   cbn [step]. pose proof (dequeue_qos_ok st c temp W) as X. destruct (dequeue st c temp). intros _; exact X.
 Qed.
 
 Theorem resub_along cap ops : holds_along resub_ok cap ops.
 Proof.
-  apply holds_along_intro. intros st o W. destruct o; try (destruct (step st _); reflexivity).
+  apply holds_along_intro. intros st o W O. destruct o; try (destruct (step st _); reflexivity).
   cbn [step]. pose proof (subscribe_resub_ok st c subs batches) as X. destruct (subscribe st c subs batches). exact X.
 Qed.
 
 Theorem unsub_along cap ops : holds_along unsub_ok cap ops.
 Proof.
-  apply holds_along_intro. intros st o W. destruct o; try (destruct (step st _); reflexivity).
+  apply holds_along_intro. intros st o W O. destruct o; try (destruct (step st _); reflexivity).
   cbn [step]. pose proof (unsubscribe_unsub_ok st c fs W) as X. destruct (unsubscribe st c fs). intros _; exact X.
 Qed.
 
 Theorem replay_along cap ops : holds_along replay_ok cap ops.
 Proof.
-  apply holds_along_intro. intros st o W. destruct o; try (destruct (step st _); reflexivity).
+  apply holds_along_intro. intros st o W O. destruct o; try (destruct (step st _); reflexivity).
   cbn [step]. pose proof (subscribe_replay_ok st c subs batches W) as X. destruct (subscribe st c subs batches). exact X.
 Qed.
 
 Theorem retained_along cap ops : holds_along retained_ok cap ops.
 Proof.
-  apply holds_along_intro. intros st o W. pose proof (step_retained_ok st o) as X. destruct (step st o). intros _; exact X.
+  apply holds_along_intro. intros st o W O. pose proof (step_retained_ok st o W (own_ownok st O)) as X. destruct (step st o). intros _; exact X.
+Qed.
+
+(* a Publish that returns ErrQueueFull has changed nothing *)
+Theorem refused_along cap ops : holds_along refused_ok cap ops.
+Proof.
+  apply holds_along_intro. intros st o W O. destruct o; try (destruct (step st _) as [r s']; destruct r; reflexivity).
+  cbn [step]. pose proof (publish_refused_ok st c m got W (own_ownok st O)) as X. destruct (publish st c m got). intros _; exact X.
 Qed.
 
 (* ------------------------------------------------------------------ the retained map as a fold over the history *)
-(* the publishes of a history that returned (a blocked call has done nothing yet) *)
+(* the publishes of a history that were accepted (a refused or a waiting call has done nothing) *)
 Fixpoint effective_pubs (ops : list op) (rs : list result) : list message :=
   match ops, rs with
   | OPublish _ m _ :: ops', r :: rs' =>
-      (match r with RBlocked => [] | _ => [m] end) ++ effective_pubs ops' rs'
+      (match r with ROk => [m] | _ => [] end) ++ effective_pubs ops' rs'
   | _ :: ops', _ :: rs' => effective_pubs ops' rs'
   | _, _ => []
   end.
@@ -101,22 +110,24 @@ Definition retained_fold (start : option message) (pubs : list message) (t : byt
                           then (if is_nil (m_payload m) then None else Some m) else acc) pubs start.
 Definition retained_spec (pubs : list message) (t : bytes) : option message := retained_fold None pubs t.
 
-Lemma retained_run ops : forall st t,
+Lemma retained_run ops : forall st t, wf st -> Own st ->
   alookup bytes_eqb t (st_retained (snd (run st ops))) =
   retained_fold (alookup bytes_eqb t (st_retained st)) (effective_pubs ops (fst (run st ops))) t.
 Proof.
-  induction ops as [|o ops IH]; intros st t; cbn [run]; [reflexivity|].
-  destruct (step st o) as [r st1] eqn:E. specialize (IH st1 t).
+  induction ops as [|o ops IH]; intros st t W O; cbn [run]; [reflexivity|].
+  pose proof (wf_step st o W) as W1. pose proof (own_step st o O) as O1.
+  destruct (step st o) as [r st1] eqn:E. cbn [snd] in W1, O1. specialize (IH st1 t W1 O1).
   destruct (run st1 ops) as [rs st2]. cbn [fst snd] in *.
   assert (Est : st1 = snd (step st o)) by (rewrite E; reflexivity).
   destruct o as [c id clean|tm|c|c subs b|c fs|c m got|c tq|c|];
     try (cbn [effective_pubs]; rewrite IH, Est, retained_step_other by exact I; reflexivity).
   cbn [effective_pubs]. unfold retained_fold in *. rewrite fold_left_app, IH. f_equal.
   cbn [step] in E. rewrite publish_unfold in E.
-  destruct (negb (pub_err st c m) && pub_blk st c m).
-  - injection E as <- <-. reflexivity.
-  - injection E as <- <-. cbn [st_retained]. rewrite alookup_retain_update. unfold ret_spec.
-    destruct (pub_err st c m); reflexivity.
+  destruct (pub_stuck st c m) eqn:Hnb.
+  - injection E as <- <-. destruct (own_refused st c m); reflexivity.
+  - unfold pub_stuck in Hnb. apply orb_false_iff in Hnb as [R _].
+    rewrite (no_midway st c m W (own_ownok st O) R) in E.
+    injection E as <- <-. cbn [st_retained fold_left]. rewrite alookup_retain_update. reflexivity.
 Qed.
 
 Theorem retained_is_spec cap ops t :
@@ -124,7 +135,7 @@ Theorem retained_is_spec cap ops t :
   alookup bytes_eqb t (st_retained st) = retained_spec (effective_pubs ops rs) t /\
   NoDup (map fst (st_retained st)) /\ retained_wf st = true.
 Proof.
-  pose proof (retained_run ops (init cap) t) as X.
+  pose proof (retained_run ops (init cap) t (wf_init cap) (own_init cap)) as X.
   pose proof (wf_run ops (init cap) (wf_init cap)) as W. unfold run_state in W.
   assert (RW : forall ops st, retained_wf st = true -> retained_wf (snd (run st ops)) = true).
   { clear. induction ops as [|o ops IH]; intros st H; cbn [run]; [exact H|].
@@ -133,4 +144,35 @@ Proof.
   specialize (RW ops (init cap) eq_refl).
   destruct (run (init cap) ops) as [rs st]. cbn [fst snd] in *.
   split; [exact X|]. split; [exact (proj2 (proj2 W))|exact RW].
+Qed.
+
+(* ------------------------------------------------------------------ ErrQueueFull is atomic *)
+Lemma trace_step_facts cap ops st o r st' :
+  In (st, o, r, st') (trace (init cap) ops) -> wf st /\ Own st /\ step st o = (r, st').
+Proof.
+  intros Hin.
+  pose proof (trace_wf ops (init cap) (wf_init cap) (own_init cap)) as F1.
+  pose proof (trace_is_step ops (init cap)) as F2.
+  rewrite Forall_forall in *. specialize (F1 _ Hin). specialize (F2 _ Hin). cbn [fst] in F1. cbn beta iota in F2.
+  destruct F1; auto.
+Qed.
+
+(* in every history a Publish that returns ErrQueueFull has changed nothing at all (sessions, queues, retained
+   store, everything), and it was the pre-check that refused it: the live publisher's own matching queue is full *)
+Theorem queue_full_atomic cap ops st c m got st' :
+  In (st, OPublish c m got, RQueueFull, st') (trace (init cap) ops) ->
+  st' = st /\ own_refused st c m = true.
+Proof.
+  intros Hin. destruct (trace_step_facts _ _ _ _ _ _ Hin) as (W & O & E). cbn [step] in E.
+  destruct (publish_refused st c m got W (own_ownok st O)) as [R S]; [rewrite E; reflexivity|].
+  rewrite E in S. cbn [snd] in S. auto.
+Qed.
+
+(* the publish of a closing connection (its will) is never refused *)
+Theorem closing_publisher_not_refused cap ops st c m got r st' :
+  In (st, OPublish c m got, r, st') (trace (init cap) ops) ->
+  mem_n c (st_dying st) = true -> r <> RQueueFull.
+Proof.
+  intros Hin D ->. destruct (queue_full_atomic _ _ _ _ _ _ _ Hin) as [_ R].
+  unfold own_refused in R. rewrite D in R. discriminate.
 Qed.
